@@ -13,6 +13,12 @@ def main():
     except BuildError as e:
         print("harness build failed:\n" + str(e)[-4000:])
         return 2
+    import common
+    try:
+        common.bignat_accelerator(common.workdir("setup"))
+        print("BigNat accelerator ready")
+    except Exception as e:  # noqa
+        print("BigNat accelerator unavailable:", e)
     bad = 0
     for f in sorted(glob.glob(os.path.join(SPEC, "*.tla"))):
         rc, out = run(["tla-sany", os.path.basename(f)], cwd=SPEC, timeout=300)
